@@ -30,6 +30,7 @@ def required_cells(tier):
         for r in ("parallel", "antiparallel", "perpendicular", "generic"):
             req["combo:%s,%s/%s" % (a, b, r)] = 50 if q else 2000
     req["history:direction-vector-reused-after-assignment"] = 300
+    req["nt:int"] = 1000
     return req
 
 
@@ -74,11 +75,11 @@ def cases(rng, budget, widx, nworkers, tier):
         yield c_
 
 
-def _mk(G, kind, p, d, r, hist=None):
+def _mk(G, kind, p, d, r, hist=None, nt=float):
     if hist is None:
         if kind == "VEC":
-            return G.Vector(*[float(c) for c in d])
-        return lift((kind, p, d), r)
+            return G.Vector(*[nt(c) for c in d])
+        return lift((kind, p, d), r, nt)
     # history: the direction Vector is first another direction, is used (angle / length / parallel),
     # and is then overwritten coordinate by coordinate before the operand is built from it
     w0 = hist["w0"]
@@ -123,8 +124,15 @@ def judge(case):
     p = case.get("p", (F(0), F(0), F(0)))
     q = case.get("q", (F(1), F(2), F(-1)))
     h = case.get("hist")
-    x = _mk(G, ka, p, u, r, h if h and h["who"] == 0 else None)
-    y = _mk(G, kb, q, v, r, h if h and h["who"] == 1 else None)
+    nt = float
+    if case.get("ls", 0) % 4 == 0 and all(F(c).denominator == 1 for c in tuple(u) + tuple(v)):
+        # plain Python ints as coordinates (points rounded to integers; the directions are what matters here)
+        nt = int
+        p = tuple(F(int(c)) for c in p)
+        q = tuple(F(int(c)) for c in q)
+        mu.cell("nt:int")
+    x = _mk(G, ka, p, u, r, h if h and h["who"] == 0 else None, nt)
+    y = _mk(G, kb, q, v, r, h if h and h["who"] == 1 else None, nt)
     if h:
         mu.cell("history:direction-vector-reused-after-assignment")
     forms = [("f(a,b)", lambda f, a, b: f(a, b), x, y), ("f(b,a)", lambda f, a, b: f(a, b), y, x)]
